@@ -34,17 +34,23 @@ type c20Item struct {
 	VStr  string  `json:"vstr,omitempty"`
 	VKey  string  `json:"vkey,omitempty"`
 	Site  int     `json:"site,omitempty"`
+	// SetAlias: the SETVAR item is written with an alias (SETVAR(k, v) AS w)
+	SetAlias string `json:"set_alias,omitempty"`
 }
 
 type c20Query struct {
-	Grid   bool      `json:"grid,omitempty"`   // FROM g: the rows of t, two to an inner array (rows that are arrays themselves)
-	Ragged bool      `json:"ragged,omitempty"` // FROM r: the rows of t, every second one wrapped in an inner array of its own (objects and arrays side by side)
-	Order  string    `json:"order,omitempty"`  // ORDER BY on a column the select list does not produce: rows are still evaluated in source order
-	Twice  bool      `json:"twice,omitempty"`  // Exec is called a second time on the same Query
-	Items  []c20Item `json:"items"`
-	WhereK int       `json:"where_k"` // -1 none; else  a >= WhereK
-	Dual   bool      `json:"dual"`
-	SQL    string    `json:"sql"`
+	Grid   bool   `json:"grid,omitempty"`   // FROM g: the rows of t, two to an inner array (rows that are arrays themselves)
+	Ragged bool   `json:"ragged,omitempty"` // FROM r: the rows of t, every second one wrapped in an inner array of its own (objects and arrays side by side)
+	Order  string `json:"order,omitempty"`  // ORDER BY on a column the select list does not produce: rows are still evaluated in source order
+	// GroupBy: SELECT b, <items> FROM t .. GROUP BY b [HAVING COUNT(*) >= HavingK]: the select list runs once per group
+	// that passes HAVING, groups in order of first appearance; a SETVAR item may carry an alias (it still adds no column)
+	GroupBy bool      `json:"group_by,omitempty"`
+	HavingK int       `json:"having_k,omitempty"`
+	Twice   bool      `json:"twice,omitempty"` // Exec is called a second time on the same Query
+	Items   []c20Item `json:"items"`
+	WhereK  int       `json:"where_k"` // -1 none; else  a >= WhereK
+	Dual    bool      `json:"dual"`
+	SQL     string    `json:"sql"`
 }
 
 type c20Expect struct {
@@ -122,6 +128,9 @@ func (it c20Item) sql() string {
 		case "bool":
 			v = map[bool]string{true: "TRUE", false: "FALSE"}[it.VNum == 1]
 		}
+		if it.SetAlias != "" {
+			return fmt.Sprintf("SETVAR(%s, %s) AS %s", it.ksql(), v, it.SetAlias)
+		}
 		return fmt.Sprintf("SETVAR(%s, %s)", it.ksql(), v)
 	}
 	return "1"
@@ -157,6 +166,31 @@ func c20Model(q *c20Query, table []any, model map[string]any) (rows1, rows2 []an
 	if q.Dual {
 		src = []any{map[string]any{}}
 	}
+	whereK := q.WhereK
+	if q.GroupBy {
+		// the rows the select list sees are the groups: one per value of b among the rows passing WHERE, in order of
+		// first appearance, those that HAVING lets through
+		var order []any
+		count := map[any]int{}
+		for _, r := range table {
+			row := r.(map[string]any)
+			if q.WhereK >= 0 && row["a"].(float64) < float64(q.WhereK) {
+				continue
+			}
+			if count[row["b"]] == 0 {
+				order = append(order, row["b"])
+			}
+			count[row["b"]]++
+		}
+		src = []any{}
+		for _, k := range order {
+			if q.HavingK > 0 && count[k] < q.HavingK {
+				continue
+			}
+			src = append(src, map[string]any{"b": k})
+		}
+		whereK = -1
+	}
 	passes := 1
 	if q.Twice {
 		passes = 2
@@ -169,10 +203,13 @@ func c20Model(q *c20Query, table []any, model map[string]any) (rows1, rows2 []an
 		byIdx := map[int]any{}
 		for si := range src {
 			row := src[si].(map[string]any)
-			if q.WhereK >= 0 && row["a"].(float64) < float64(q.WhereK) {
+			if whereK >= 0 && row["a"].(float64) < float64(whereK) {
 				continue
 			}
 			out := map[string]any{}
+			if q.GroupBy {
+				out["b"] = row["b"]
+			}
 			for _, it := range q.Items {
 				switch it.Kind {
 				case "col":
@@ -340,6 +377,10 @@ func genC20(t *rapid.T) *Bundle {
 		if ragged && !q.Dual {
 			q.Grid, q.Ragged = false, true
 		}
+		q.GroupBy = !q.Dual && !q.Grid && !q.Ragged && rapid.IntRange(0, 7).Draw(t, "group_by") == 0
+		if q.GroupBy {
+			q.HavingK = rapid.IntRange(0, 2).Draw(t, "having_k")
+		}
 		if !q.Dual && rapid.IntRange(0, 2).Draw(t, "has_where") == 0 {
 			q.WhereK = rapid.IntRange(0, 4).Draw(t, "where_k") * 10
 		}
@@ -347,7 +388,7 @@ func genC20(t *rapid.T) *Bundle {
 		usedCols := map[string]bool{}
 		for i := 0; i < ni; i++ {
 			kinds := []string{"set", "get", "set", "get", "col", "async", "spin", "getsub", "setv_async", "case_set", "if_get", "await_get", "setsub", "await_set"}
-			if q.Dual {
+			if q.Dual || q.GroupBy {
 				kinds = []string{"set", "get"}
 			}
 			it := c20Item{Kind: rapid.SampledFrom(kinds).Draw(t, "kind")}
@@ -410,8 +451,11 @@ func genC20(t *rapid.T) *Bundle {
 			case "set":
 				it.Key, it.KeySQL = drawKey("key")
 				vk := []string{"col", "num", "str", "null", "sum", "getvar", "bool", "str", "num"}
-				if q.Dual {
+				if q.Dual || q.GroupBy {
 					vk = []string{"num", "str", "null", "getvar", "bool"}
+				}
+				if q.GroupBy && rapid.Bool().Draw(t, "set_alias") {
+					it.SetAlias = fmt.Sprintf("w%d", i)
 				}
 				it.VKind = rapid.SampledFrom(vk).Draw(t, "vkind")
 				switch it.VKind {
@@ -438,6 +482,9 @@ func genC20(t *rapid.T) *Bundle {
 			sel = append(sel, it.sql())
 		}
 		q.SQL = "SELECT " + strings.Join(sel, ", ") + " FROM "
+		if q.GroupBy {
+			q.SQL = "SELECT b, " + strings.Join(sel, ", ") + " FROM "
+		}
 		if q.Dual {
 			q.SQL += "dual"
 		} else {
@@ -448,7 +495,13 @@ func genC20(t *rapid.T) *Bundle {
 			if q.WhereK >= 0 {
 				q.SQL += fmt.Sprintf(" WHERE a >= %d", q.WhereK)
 			}
-			if !q.Grid && !q.Ragged && rapid.IntRange(0, 4).Draw(t, "order_by") == 0 {
+			if q.GroupBy {
+				q.SQL += " GROUP BY b"
+				if q.HavingK > 0 {
+					q.SQL += fmt.Sprintf(" HAVING COUNT(*) >= %d", q.HavingK)
+				}
+			}
+			if !q.Grid && !q.Ragged && !q.GroupBy && rapid.IntRange(0, 4).Draw(t, "order_by") == 0 {
 				cand := []string{}
 				for _, c := range []string{"id", "a"} {
 					if !usedCols[c] {
